@@ -484,6 +484,30 @@ class Body:
     def _mk_proj(self, base, elems):
         if not elems:
             return base
+        # slices of slices: x.split_at(m) = (x[..m], x[m..]);  x[a..][i] = x[a+i];  x[a..e][b..] = x[a+b..e]; …
+        # (value identity only: the bounds obligations of the intermediate slices are separate proof obligations)
+        if base[0] == "call" and base[1] in ("[T]::split_at", "core::slice::<impl [T]>::split_at") and len(base[2]) == 2 and elems[0] in ("0", "1"):
+            x, m = base[2]
+            rng = ("agg", "Range", (("const", "0", "usize", None), _plain(m)), ()) if elems[0] == "0" else ("agg", "RangeFrom", (_plain(m),), ())
+            return self._mk_proj(self._mk_proj(x, (("[]", rng),)), tuple(elems[1:]))
+        if base[0] == "proj" and base[2] and isinstance(base[2][-1], tuple) and base[2][-1][0] == "[]" and isinstance(elems[0], tuple) and elems[0][0] == "[]":
+            outer = base[2][-1][1]
+            inner = elems[0][1]
+            if isinstance(outer, tuple) and outer[0] == "agg" and outer[1] in ("Range", "RangeFrom") and isinstance(inner, tuple):
+                a = outer[2][0]
+                e = outer[2][1] if outer[1] == "Range" else None
+                comp = None
+                if inner[0] == "agg" and inner[1] == "RangeFrom":
+                    comp = ("agg", "Range", (_sadd(a, inner[2][0]), e), ()) if e is not None else ("agg", "RangeFrom", (_sadd(a, inner[2][0]),), ())
+                elif inner[0] == "agg" and inner[1] == "Range":
+                    comp = ("agg", "Range", (_sadd(a, inner[2][0]), _sadd(a, inner[2][1])), ())
+                elif inner[0] == "agg" and inner[1] == "RangeTo":
+                    comp = ("agg", "Range", (_plain(a), _sadd(a, inner[2][0])), ())
+                elif inner[0] != "agg":
+                    comp = _sadd(a, inner)
+                if comp is not None:
+                    parent = ("proj", base[1], tuple(base[2][:-1])) if len(base[2]) > 1 else base[1]
+                    return self._mk_proj(self._mk_proj(parent, (("[]", comp),)), tuple(elems[1:]))
         # the `?` operator: Option::branch(x) is Continue(v) exactly when x is Some(v) (Result: Ok(v))
         if base[0] == "call" and base[1] in ("Option::branch", "Result::branch") and len(base[2]) == 1 and len(elems) >= 2 and elems[0] == "@Continue" and elems[1] == "0":
             inner = "@Some" if base[1] == "Option::branch" else "@Ok"
@@ -1039,6 +1063,40 @@ def _is_zero(e):
 
 def _unsigned(ty):
     return ty in ("u8", "u16", "u32", "u64", "u128", "usize")
+
+
+def _plain(e):
+    """drop the item name of an integer constant (FRAME_CRC_SIZE and the literal 4 are the same index)"""
+    if isinstance(e, tuple) and e and e[0] == "const" and len(e) == 4 and e[3] and str(e[1]).lstrip("-").isdigit():
+        return ("const", e[1], e[2], None)
+    if isinstance(e, tuple) and e and e[0] == "bin" and e[1] in ("Add", "Sub"):
+        return ("bin", e[1], _plain(e[2]), _plain(e[3]))
+    return e
+
+
+def _cint(e):
+    return int(e[1]) if isinstance(e, tuple) and e and e[0] == "const" and str(e[1]).isdigit() else None
+
+
+def _sadd(a, b):
+    """a + b on index expressions with the obvious simplifications (0 + x, constants, (x - c) + d)"""
+    a, b = _plain(a), _plain(b)
+    ca, cb = _cint(a), _cint(b)
+    if ca is not None and cb is not None:
+        return ("const", str(ca + cb), "usize", None)
+    if ca == 0:
+        return b
+    if cb == 0:
+        return a
+    for x, c in ((a, cb), (b, ca)):
+        if c is not None and isinstance(x, tuple) and x[0] == "bin" and x[1] == "Sub" and _cint(x[3]) is not None:
+            d = _cint(x[3])
+            if c < d:
+                return ("bin", "Sub", x[2], ("const", str(d - c), "usize", None))
+            if c == d:
+                return x[2]
+            return ("bin", "Add", x[2], ("const", str(c - d), "usize", None))
+    return ("bin", "Add", a, b)
 
 
 def _mentions_var(e):
